@@ -13,5 +13,6 @@ CONSTANTS
   Chars = {}
   IntParts = {}
   Sample = 1
+  HiStep = 1
 INVARIANTS InvCallTotal InvNormalForm InvModeDiscipline InvBindingIsFunction InvOkMeansEachParameterOnce InvPositionalFirst InvRenderReads
 CHECK_DEADLOCK FALSE
